@@ -49,5 +49,11 @@ Case == [s |-> cfg0, max |-> max, inputs |-> inputs,
          allowed |-> << [status |-> IF status = "fatal" THEN "fatal" ELSE "ok",
                          st |-> st, err |-> err] >>]
 
+(* the run as a function (PushInstr!RunFrom, used by PushGP to score genomes) ends *)
+(* exactly where the actions end                                                 *)
+RunAgrees ==
+  status # "running" =>
+    [st |-> st, steps |-> steps, status |-> status, err |-> err] \in RunFrom(cfg0, 0, max, inputs, limit)
+
 Emit == PrintT(<<"CASE", ToJson(Case)>>)
 =============================================================================
